@@ -1,7 +1,7 @@
 """C09 -- ITS payload words are classified as the documented state machine says."""
 import random
 
-from .. import core
+from .. import core, ctxstream
 
 TRUSTED = [
     "Coq 8.16.1 kernel; vm_compute for the complete 11 states x 256 ids x 4 flag-combination product",
@@ -148,6 +148,7 @@ def run(tier, seed):
     chk.add_stream("fsm-walk", len(cases), ["%d>%d" % x for x in wk],
                    [{"walk": cases[0][:200] + "...", "impl": impl[0][:80] + "..."}],
                    distribution={"words_stepped": nsteps})
+    ctxstream.run(chk, rng, deep)
     chk.cov["states"] = 11
     chk.cov["transitions"] = len(trans)
     chk.cov["exhaustive"] = True
